@@ -1679,6 +1679,393 @@ fn gen_case(rng: &mut Rng, property: &str, rep: &mut Report) -> Case {
 }
 
 // ------------------------------------------------------------------------------------------------
+// boundary streams: sizes around every boundary an index / length / capacity representation could have
+// (bit sets and masks, inline small vectors, hash-map growth, buffer capacities), with each defect injected
+// at the FIRST, the LAST and a random position.
+
+const BOUNDS: &[usize] = &[1, 2, 3, 4, 7, 8, 9, 15, 16, 17, 31, 32, 33, 63, 64, 65, 127, 128, 129, 255, 256, 257];
+const LEN_BOUNDS: &[usize] = &[1, 2, 7, 8, 15, 16, 17, 22, 23, 24, 31, 32, 33, 63, 64, 65, 127, 128, 129, 255, 256, 257, 1023, 1024, 1025, 4095, 4096, 4097];
+
+#[derive(Clone, Copy, Debug, PartialEq)]
+enum Pos {
+    First,
+    Last,
+    Random,
+}
+
+fn pick_index(rng: &mut Rng, pos: Pos, n: usize) -> usize {
+    match pos {
+        Pos::First => 0,
+        Pos::Last => n - 1,
+        Pos::Random => rng.below(n as u64) as usize,
+    }
+}
+
+fn plain_cfg(rng: &mut Rng, default_dims: Vec<Vec<String>>) -> EmfCfg {
+    EmfCfg {
+        how: *rng.pick(&['A', 'A', 'B', 'F']),
+        namespaces: vec!["Ns".into()],
+        default_dims,
+        log_group: None,
+        allow_ignored: false,
+        extra_directive: false,
+        multiplicity: if rng.chance(1, 4) { Some(4) } else { None },
+    }
+}
+
+fn one_obs(rng: &mut Rng) -> GVal {
+    GVal::Metric { obs: vec![Observation::Unsigned(rng.below(1000))], unit: Unit::None, dims: vec![], flags: GFlags::None }
+}
+
+fn metric_with(rng: &mut Rng, dims: Vec<(String, String)>) -> GVal {
+    GVal::Metric { obs: vec![Observation::Unsigned(rng.below(1000))], unit: Unit::None, dims, flags: GFlags::None }
+}
+
+/// `k` distinct per-metric dimension sets in one split entry; defect `d` at set index `j`
+fn stream_sets(rng: &mut Rng, k: usize, pos: Pos, d: u64) -> (Case, String) {
+    let dd = if rng.chance(1, 3) { vec![vec!["AZ".to_string()]] } else { vec![vec![]] };
+    let cfg = plain_cfg(rng, dd);
+    let same_name = rng.chance(1, 2);
+    let flavor = rng.below(3);
+    let dims_of = |i: usize| -> Vec<(String, String)> {
+        match flavor {
+            0 => vec![("Dim".to_string(), format!("v{i}"))],
+            1 => vec![(format!("K{i}"), "v".to_string())],
+            _ => vec![("Dim".to_string(), format!("v{}", i / 7)), ("Zone".to_string(), format!("z{}", i % 7))],
+        }
+    };
+    let name_of = |i: usize| -> String { if same_name { "Latency".to_string() } else { format!("M{i}") } };
+    let mut items = vec![GItem::Timestamp(1_700_000_000_000_000), GItem::allow_split()];
+    for dset in &cfg.default_dims {
+        for dn in dset {
+            items.push(GItem::Value(dn.clone(), GVal::Str("az-1".into())));
+        }
+    }
+    items.push(GItem::Value("Op".into(), GVal::Str("Get".into())));
+    if rng.chance(1, 2) {
+        items.push(GItem::Value("Global".into(), one_obs(rng)));
+    }
+    let base = items.len();
+    for i in 0..k {
+        let v = metric_with(rng, dims_of(i));
+        items.push(GItem::Value(name_of(i), v));
+    }
+    let j = pick_index(rng, pos, k);
+    let at_end = rng.chance(1, 2);
+    let label = match d {
+        0 => "valid",
+        1 => {
+            // the same metric again in set j (at the end of the entry, or right after the first one)
+            let v = metric_with(rng, dims_of(j));
+            if at_end { items.push(GItem::Value(name_of(j), v)) } else { items.insert(base + j + 1, GItem::Value(name_of(j), v)) }
+            "dup-metric-in-set"
+        }
+        2 => {
+            let mut dm = dims_of(j);
+            dm.reverse();
+            let v = metric_with(rng, dm);
+            items.push(GItem::Value(name_of(j), v));
+            "dup-metric-in-set-permuted"
+        }
+        3 => {
+            let it = GItem::Value(name_of(j), GVal::Str("s".into()));
+            if at_end { items.push(it) } else { items.insert(base, it) }
+            "string-vs-metric-name"
+        }
+        4 => {
+            // near miss: the name of set j once more, in a brand-new set
+            let v = metric_with(rng, vec![("Fresh".to_string(), "f".to_string())]);
+            items.push(GItem::Value(name_of(j), v));
+            "same-name-new-set"
+        }
+        5 => {
+            items.insert(base + j + 1, GItem::entry_dims(vec![vec![]]));
+            "entry-dimensions-late"
+        }
+        6 => {
+            // the split config only after the metric of set j
+            items.remove(1);
+            items.insert(base + j, GItem::allow_split());
+            "split-config-after-set"
+        }
+        7 => {
+            // a second metric with a distinct name in set j (valid), then that name again in set j
+            let v = metric_with(rng, dims_of(j));
+            items.push(GItem::Value("Extra".into(), v));
+            let v = metric_with(rng, dims_of(j));
+            items.push(GItem::Value("Extra".into(), v));
+            "dup-second-metric-in-set"
+        }
+        _ => {
+            // the global metric's name again under set j is fine; again globally is a duplicate
+            let v = metric_with(rng, dims_of(j));
+            items.push(GItem::Value("Global2".into(), v));
+            items.push(GItem::Value("Global2".into(), one_obs(rng)));
+            items.push(GItem::Value("Global2".into(), one_obs(rng)));
+            "dup-global-after-sets"
+        }
+    };
+    (Case { cfg, entry: GenEntry { items, sample_group: vec![] } }, format!("sets:{label}"))
+}
+
+/// `n` values in one entry; defect at value index `j`
+fn stream_items(rng: &mut Rng, n: usize, pos: Pos, d: u64) -> (Case, String) {
+    let cfg = plain_cfg(rng, vec![vec![]]);
+    let mut items = vec![GItem::Timestamp(1)];
+    let is_str: Vec<bool> = (0..n).map(|_| rng.chance(1, 2)).collect();
+    for i in 0..n {
+        let v = if is_str[i] { GVal::Str(format!("s{i}")) } else { one_obs(rng) };
+        items.push(GItem::Value(format!("F{i}"), v));
+    }
+    let j = pick_index(rng, pos, n);
+    let at = if rng.chance(1, 2) { items.len() } else { 1 };
+    let label = match d {
+        0 => "valid",
+        1 => {
+            items.insert(at, GItem::Value(format!("F{j}"), GVal::Str("again".into())));
+            "dup-as-string"
+        }
+        2 => {
+            let v = one_obs(rng);
+            items.insert(at, GItem::Value(format!("F{j}"), v));
+            "dup-as-metric"
+        }
+        3 => {
+            items.insert(1 + j, GItem::Value(String::new(), GVal::Str("x".into())));
+            "empty-name"
+        }
+        4 => {
+            items.insert(1 + j, GItem::Timestamp(2));
+            "second-timestamp"
+        }
+        _ => {
+            items.insert(1 + j, GItem::Value("_aws".into(), GVal::Nothing));
+            "reserved-name"
+        }
+    };
+    (Case { cfg, entry: GenEntry { items, sample_group: vec![] } }, format!("items:{label}"))
+}
+
+/// per-metric dimension lists of length `n`
+fn stream_dims(rng: &mut Rng, n: usize, pos: Pos, d: u64) -> (Case, String) {
+    let cfg = plain_cfg(rng, vec![vec![]]);
+    let dims: Vec<(String, String)> = (0..n).map(|i| (format!("K{i:03}"), format!("v{i}"))).collect();
+    let mut items = vec![GItem::Timestamp(1), GItem::allow_split(), GItem::Value("Op".into(), GVal::Str("Get".into()))];
+    let mut shuffled = dims.clone();
+    rng.shuffle(&mut shuffled);
+    let v = metric_with(rng, shuffled);
+    items.push(GItem::Value("M".into(), v));
+    let j = pick_index(rng, pos, n);
+    let label = match d {
+        0 => "valid",
+        1 => {
+            // the same set (given in another order): duplicate
+            let mut dm = dims.clone();
+            dm.reverse();
+            let v = metric_with(rng, dm);
+            items.push(GItem::Value("M".into(), v));
+            "dup-metric-same-set-other-order"
+        }
+        2 => {
+            // differs only in the value of dimension j: another set, valid
+            let mut dm = dims.clone();
+            dm[j].1.push('x');
+            let v = metric_with(rng, dm);
+            items.push(GItem::Value("M".into(), v));
+            "near-miss-one-value-differs"
+        }
+        3 => {
+            // differs only in the key of dimension j: another set, valid
+            let mut dm = dims.clone();
+            dm[j].0.push('x');
+            let v = metric_with(rng, dm);
+            items.push(GItem::Value("M".into(), v));
+            "near-miss-one-key-differs"
+        }
+        _ => {
+            // a prefix of the dimension list: another set, valid; then the full set again: duplicate
+            let v = metric_with(rng, dims[..n - 1].to_vec());
+            if n > 1 {
+                items.push(GItem::Value("M".into(), v));
+            }
+            let v = metric_with(rng, dims.clone());
+            items.push(GItem::Value("M".into(), v));
+            "prefix-set-then-dup"
+        }
+    };
+    (Case { cfg, entry: GenEntry { items, sample_group: vec![] } }, format!("dims:{label}"))
+}
+
+/// names of `len` bytes that share all but one byte
+fn stream_namelen(rng: &mut Rng, len: usize, pos: Pos, d: u64) -> (Case, String) {
+    let mk = |j: usize, c: char| -> String { (0..len).map(|i| if i == j { c } else { 'a' }).collect() };
+    let j = pick_index(rng, pos, len);
+    let declared = d >= 4;
+    let cfg = plain_cfg(rng, if declared { vec![vec![mk(j, 'x')]] } else { vec![vec![]] });
+    let mut items = vec![GItem::Timestamp(1)];
+    let label = match d {
+        0 => {
+            items.push(GItem::Value(mk(j, 'x'), GVal::Str("1".into())));
+            items.push(GItem::Value(mk(j, 'y'), one_obs(rng)));
+            "valid-differ-in-one-byte"
+        }
+        1 => {
+            items.push(GItem::Value(mk(j, 'x'), GVal::Str("1".into())));
+            items.push(GItem::Value(mk(j, 'x'), GVal::Str("2".into())));
+            "dup-string"
+        }
+        2 => {
+            items.push(GItem::Value(mk(j, 'x'), one_obs(rng)));
+            items.push(GItem::Value(mk(j, 'y'), one_obs(rng)));
+            items.push(GItem::Value(mk(j, 'x'), one_obs(rng)));
+            "dup-metric"
+        }
+        3 => {
+            items.push(GItem::Value(mk(j, 'x'), one_obs(rng)));
+            items.push(GItem::Value(mk(j, 'x'), GVal::Str("2".into())));
+            "metric-then-string"
+        }
+        4 => {
+            items.push(GItem::Value(mk(j, 'x'), GVal::Str("dim".into())));
+            items.push(GItem::Value("M".into(), one_obs(rng)));
+            "valid-long-dimension"
+        }
+        5 => {
+            items.push(GItem::Value(mk(j, 'y'), GVal::Str("dim".into())));
+            "missing-dimension-one-byte-off"
+        }
+        _ => {
+            items.push(GItem::Value(mk(j, 'x'), GVal::Str("dim".into())));
+            items.push(GItem::Value(mk(j, 'x'), one_obs(rng)));
+            "metric-under-long-dimension"
+        }
+    };
+    (Case { cfg, entry: GenEntry { items, sample_group: vec![] } }, format!("namelen:{label}"))
+}
+
+/// `n` declared dimensions (default sets and entry sets); defect at dimension `j`
+fn stream_declared(rng: &mut Rng, n: usize, pos: Pos, d: u64) -> (Case, String) {
+    let names: Vec<String> = (0..n).map(|i| format!("D{i}")).collect();
+    let shape = rng.below(3);
+    let (default_dims, entry_dims): (Vec<Vec<String>>, Option<Vec<Vec<String>>>) = match shape {
+        0 => (vec![names.clone()], None),
+        1 => (names.iter().map(|x| vec![x.clone()]).collect(), None),
+        _ => (vec![vec![]], Some(names.chunks(3).map(|c| c.to_vec()).collect())),
+    };
+    let mut cfg = plain_cfg(rng, default_dims);
+    if n > 40 && shape == 1 {
+        cfg.multiplicity = None;
+    }
+    let mut items = vec![GItem::Timestamp(1)];
+    if let Some(s) = entry_dims {
+        items.push(GItem::entry_dims(s));
+    }
+    for x in &names {
+        items.push(GItem::Value(x.clone(), GVal::Str("v".into())));
+    }
+    items.push(GItem::Value("M".into(), one_obs(rng)));
+    let j = pick_index(rng, pos, n);
+    let label = match d {
+        0 => "valid",
+        1 => {
+            items.retain(|it| !matches!(it, GItem::Value(x, GVal::Str(_)) if *x == names[j]));
+            "missing-dimension"
+        }
+        2 => {
+            items.push(GItem::Value(names[j].clone(), one_obs(rng)));
+            "metric-under-dimension"
+        }
+        3 => {
+            for it in items.iter_mut() {
+                if matches!(it, GItem::Value(x, GVal::Str(_)) if *x == names[j]) {
+                    *it = GItem::Value(names[j].clone(), one_obs(rng));
+                }
+            }
+            "metric-replaces-dimension"
+        }
+        _ => {
+            items.push(GItem::Value(names[j].clone(), GVal::Str("again".into())));
+            "dup-dimension-string"
+        }
+    };
+    (Case { cfg, entry: GenEntry { items, sample_group: vec![] } }, format!("declared:{label}"))
+}
+
+/// `n` namespaces (directive replication), with a split record, an extra directive and a log group
+fn stream_namespaces(rng: &mut Rng, n: usize, _pos: Pos, d: u64) -> (Case, String) {
+    let cfg = EmfCfg {
+        how: *rng.pick(&['B', 'F', 'S']),
+        namespaces: (0..n).map(|i| format!("Ns{i}")).collect(),
+        default_dims: vec![vec!["AZ".into()], vec![]],
+        log_group: if rng.chance(1, 2) { Some("Group".into()) } else { None },
+        allow_ignored: false,
+        extra_directive: rng.chance(1, 2),
+        multiplicity: if rng.chance(1, 3) { Some(2) } else { None },
+    };
+    let mut items = vec![
+        GItem::Timestamp(1_234_567),
+        GItem::allow_split(),
+        GItem::Value("AZ".into(), GVal::Str("az".into())),
+        GItem::Value("G".into(), GVal::Metric { obs: gen_obs_list(rng), unit: gen_unit(rng), dims: vec![], flags: gen_flags(rng) }),
+        GItem::Value("S".into(), GVal::Metric { obs: gen_obs_list(rng), unit: gen_unit(rng), dims: vec![("Dim".into(), "v".into())], flags: gen_flags(rng) }),
+    ];
+    let label = match d {
+        0 | 1 => "valid",
+        2 => {
+            items.push(GItem::Value("S".into(), metric_with(rng, vec![("Dim".into(), "v".into())])));
+            "dup-metric-in-set"
+        }
+        _ => {
+            items.push(GItem::Value("G".into(), GVal::Str("x".into())));
+            "string-vs-metric-name"
+        }
+    };
+    (Case { cfg, entry: GenEntry { items, sample_group: vec![] } }, format!("namespaces:{label}"))
+}
+
+/// the boundary cases of a run: (case, stream label, size)
+fn boundary_cases(rng: &mut Rng, property: &str, thorough: bool) -> Vec<(Case, String, usize)> {
+    type Stream = fn(&mut Rng, usize, Pos, u64) -> (Case, String);
+    // (generator, number of defect kinds, sizes, extra random sizes up to, how many random sizes)
+    let streams: Vec<(Stream, u64, Vec<usize>, usize, usize)> = vec![
+        (stream_sets, 9, BOUNDS.to_vec(), 600, 3),
+        (stream_items, 6, BOUNDS.to_vec(), 1500, 2),
+        (stream_dims, 5, BOUNDS[..16].to_vec(), 80, 1),
+        (stream_namelen, 7, LEN_BOUNDS.to_vec(), 3000, 1),
+        (stream_declared, 5, BOUNDS[..19].to_vec(), 200, 1),
+        (stream_namespaces, 4, BOUNDS[..13].to_vec(), 40, 1),
+    ];
+    let c08 = property == "C08";
+    let mut out = vec![];
+    for (sgen, kinds, mut sizes, upto, n_random) in streams {
+        for _ in 0..(if thorough { 4 * n_random } else { n_random }) {
+            sizes.push(rng.range(1, upto as u64) as usize);
+        }
+        for size in sizes {
+            for pos in [Pos::First, Pos::Last, Pos::Random] {
+                // quick: per (size, position) the stream's plain duplicate, one more defect kind and one random kind (C08) /
+                // mostly valid entries (C03); thorough: every kind
+                let ds: Vec<u64> = if thorough && c08 {
+                    (0..kinds).collect()
+                } else if c08 {
+                    // kind 1 of every stream is its plain duplicate: always present
+                    vec![1, 1 + rng.below(kinds - 1), rng.below(kinds)]
+                } else if pos == Pos::First {
+                    vec![0]
+                } else {
+                    vec![rng.below(kinds)]
+                };
+                for d in ds {
+                    let (case, label) = sgen(rng, size, pos, d);
+                    out.push((case, label, size));
+                }
+            }
+        }
+    }
+    out
+}
+
+// ------------------------------------------------------------------------------------------------
 // evaluation of one case: oracles + request for the model
 
 struct Evaluated {
@@ -1946,15 +2333,27 @@ fn main() {
     let mut disagreeing = run_batch(&corpus, property, &args.driver, &mut rep, 1);
 
     let (shards, per_shard, batch) = if args.thorough() { (12u64, 40_000usize, 4_000usize) } else { (3u64, 4_000usize, 2_000usize) };
-    let forks: Vec<Rng> = (0..shards).map(|i| rng.fork(i)).collect();
+    // boundary streams (large entries): dealt round-robin to the shards
+    let mut brng = rng.fork(0xb0da);
+    let boundary = boundary_cases(&mut brng, property, args.thorough());
+    let mut dealt: Vec<Vec<Case>> = (0..shards).map(|_| vec![]).collect();
+    for (i, (c, label, size)) in boundary.into_iter().enumerate() {
+        rep.bump(&format!("boundary:{label}"));
+        rep.bump(&format!("boundary-size:{}", match size { 0..=9 => "1-9", 10..=63 => "10-63", 64..=255 => "64-255", _ => "256+" }));
+        dealt[i % shards as usize].push(c);
+    }
+    let forks: Vec<(Rng, Vec<Case>)> = (0..shards).map(|i| rng.fork(i)).zip(dealt).collect();
     let results: Vec<(Report, Vec<Case>)> = std::thread::scope(|s| {
         let handles: Vec<_> = forks
             .into_iter()
-            .map(|mut r| {
+            .map(|(mut r, mine)| {
                 let args = &args;
                 s.spawn(move || {
                     let mut rep = Report::new(args, "emfspec", "");
                     let mut dis = vec![];
+                    for chunk in mine.chunks(100) {
+                        dis.extend(run_batch(chunk, property, &args.driver, &mut rep, 97));
+                    }
                     let mut done = 0;
                     while done < per_shard {
                         let n = batch.min(per_shard - done);
